@@ -1,6 +1,6 @@
 """C11: the poller dispatch table PollerObs.tla; every vector executed through the real handler."""
 import json, os, re, subprocess, sys, time, shutil
-import vlib, tlaval
+import vlib, tlaval, ploop
 
 
 def vectors_from_tlc(sc):
@@ -23,8 +23,11 @@ def main(pid, tier, replay_path=None):
         with vlib.Scratch('poll') as sc:
             binary = vlib.build_harness(sc, '.', instrumented_pool=True)
             vecs = vectors_from_tlc(sc)
-            if replay_path:
-                vecs = [json.load(open(replay_path))['vector']]
+            rp = json.load(open(replay_path)) if replay_path else None
+            if rp and 'vector' in rp:
+                vecs = [rp['vector']]
+            elif rp:
+                vecs = []
             elif tier == 'quick':
                 vecs = [v for v in vecs if v['transport'] == 'unix' or v['peer'] == 'rst' or v['way'] == 'real' or 'ERR' in v['flags']]
             rounds = 1 if tier == 'quick' else 3
@@ -95,13 +98,28 @@ def main(pid, tier, replay_path=None):
                 vlib.log('violation %s: vector %s\n      events %s' % (rule, {k: r['vector'][k] for k in r['vector'] if k != 't'}, [(e['e'], e.get('n'), e.get('m')) for e in r['events']]))
                 if len(violations) < 8:
                     violations.append(vlib.save_replay(pid, '%s_%d' % (tier, len(violations)), {'property': pid, 'rule': rule, 'vector': r['vector'], 'events': r['events']}))
-            cov = {'evaluations': len(runs), 'distinct_nontrivial': len({json.dumps({k: r['vector'][k] for k in r['vector'] if k != 't'}, sort_keys=True) for r in runs}),
+            # the reactor loop as a whole: PollLoop.tla (exhaustive) + schedules/free runs on the real Wait loop
+            if not rp or 'scenario' in rp:
+                lviol, lcov = ploop.run(sc, binary, pid, tier, vlib.seed(), replay=rp['scenario'] if rp else None)
+            else:
+                lviol, lcov = [], {}
+            for rule, s0, r in lviol:
+                vlib.log('violation %s in poll-loop scenario %s (%s)' % (rule, s0['id'], {k: s0[k] for k in s0 if k not in ('plan', 'id')}))
+                vlib.log('   schedule: ' + ' '.join(r['info'].get('taken', [])[:120]))
+                vlib.log('   events: ' + ' '.join('%s:%s:%s:%s' % (e['g'], e['e'], e['k'], e['n']) for e in r['events'][-40:]))
+                if len(violations) < 8:
+                    s1 = dict(s0)
+                    if s1['mode'] == 'controlled':
+                        s1['strategy'], s1['plan'] = 'plan', r['info']['taken']
+                    violations.append(vlib.save_replay(pid, '%s_%d' % (tier, len(violations)), {'property': pid, 'rule': rule, 'scenario': s1, 'events': r['events']}))
+            cov = {'evaluations': len(runs) + lcov.get('pollloop_executions', 0), 'distinct_nontrivial': len({json.dumps({k: r['vector'][k] for k in r['vector'] if k != 't'}, sort_keys=True) for r in runs}),
                    'rule': 'every vector of PollerObs!Vectors (event flags x pending bytes x peer state x pending output x injection way x transport) enumerated by TLC; '
                            'each is executed through the real defaultPoll.handler with a recording FDOperator; distinct = distinct vectors (all involve a real dispatch)',
                    'samples': [{'vector': r['vector'], 'events': [(e['e'], e.get('n'), e.get('m')) for e in r['events']]} for r in runs[:3]],
                    'exhaustive': tier == 'thorough', 'vectors_in_spec': len(vectors_from_tlc(sc)) if False else len(vecs), 'vectors_not_set_up': len(setup),
                    'states': (st[1] if st else n), 'transitions': (st[0] if st else n), 'traces_validated_against_impl': len(runs),
-                   'callbacks_recorded': n, 'spec_modules': vlib.spec_hashes(['PollerObs.tla', 'TracePoller.tla'])}
+                   'callbacks_recorded': n, 'spec_modules': vlib.spec_hashes(['PollerObs.tla', 'TracePoller.tla', 'PollLoop.tla', 'PollLoopObs.tla', 'TracePollLoop.tla', 'TracePLImpl.tla'])}
+            cov.update(lcov)
             vlib.write_evidence(pid, tier, 'fault_enumeration', cov, time.time() - t0, len(violations),
                                 ['TLC/SANY', 'Linux epoll/socket behaviour as observed', 'recording FDOperator of the harness', 'only the epoll poller is built on this platform (kqueue file out of reach)'])
     except vlib.Inconclusive as e:
